@@ -68,6 +68,8 @@ def setup(E, shape):
         vw = [0] * n
         cw = [0] * m
         ow = 0
+    if shape.get("single"):
+        kw["precision"] = P.Precision.Single  # float64 callbacks, float32 working precision
     params = P.Params(validate_input=shape.get("validate", True), **kw)
     T = boot.mod("transform").Transformation(user, params)
     spec.update(vw=vw, cw=cw, ow=ow)
